@@ -506,6 +506,7 @@ pub fn run(args: &Args) -> i32 {
             h += 4;
         }
     });
+    crate::props::h3_l2::c16_h3(&rep, args);
     if rep.get_tally("GET /metrics: all documented series present with the in-process values") == 0 && rep.violation_count() == 0 {
         rep.violation("the metrics listener never answered GET /metrics in the whole run", json!({"kind":"metrics-export","no_answer":rep.get_tally("GET /metrics: no answer")}));
     }
